@@ -36,6 +36,11 @@ def check(ctx):
         rows = R.run_kind(ctx, kind)
         R.compare(ctx, rows, lambda d: (flag(d), d.get('up')), f'C03 release of the shared source after every event ({kind})',
                   nontrivial=lambda c, gd: 'U' in c.split('ev=')[-1] or 'D' in c.split('ev=')[-1], max_report=2)
+    # a stream that ends by itself closes its subscription and runs its teardown exactly once - also when the teardown has to wait
+    # for a second producer, and when the terminal of an eventually-safe subscriber arrives while a Next callback is still running
+    # (terminals are never given up: C07k.kernel_terminal_refused_only_when_closed; teardowns outside the lock: C06lock)
+    trows = R.run_kind(ctx, 'tdwait', shards=4)
+    R.compare(ctx, trows, proj_all, 'C03 a stream that ends by itself releases its subscription (teardown once, Wait returns)', nontrivial=lambda c, gd: True, recheck=1)
     el = emitlock_part.parts(ctx)
     rules, assumptions, searches, extra = [o['rule_part'], el['rule_part']], [], [el['search'], table_search('C14'), o.get('search')], {}
     if C03_kernel:
